@@ -35,6 +35,14 @@ theorem body_prefix_never_decodes (p : Proto) (parts : List (List Nat)) (vals : 
     (hq : q ++ more = encSteps p parts vals) (hm : more ≠ []) : decSteps p fuel q = none :=
   decSteps_proper_prefix p parts vals fuel q more ht hp hq hm
 
+/-- reading a stream of a **previous version**: the compatibility code decodes every field of the old type (the removed ones into
+    temporaries) and then converts / drops — whatever the second stage does, a cut inside the old value is an error, because the first
+    stage already fails (this is what a reader that *skips* a removed field without reading it would lose) -/
+theorem old_version_prefix_never_decodes {α : Type} (told : Ty) (v : Val) (q more : Bytes) (convert : Val → Option α)
+    (ht : HasType told v = true) (hq : q ++ more = enc told v) (hm : more ≠ []) :
+    ((dec told q).bind fun r => (convert r.1).map fun x => (x, r.2)) = none := by
+  rw [value_prefix_never_decodes told v q more ht hq hm]; rfl
+
 /-- Values delivered before the cut are the values written: decoding only depends on the bytes
     consumed, so whatever a reader decoded from a prefix it also decodes from the full stream. -/
 theorem delivered_values_are_written (t : Ty) (q more : Bytes) (v : Val) (r : Bytes)
